@@ -64,3 +64,27 @@ Theorem C15_group_operations_are_int_sym :
 Proof. exact group_operations_are_int_sym. Qed.
 Print Assumptions C15_group_operations_are_int_sym.
 
+(* ---- binary64 (Flocq): the half-open cell bound holds with rounding, for every finite coordinate up to 2^51 ---- *)
+From Coq Require Import Floats.
+From Flocq Require Import Core BinarySingleNaN PrimFloat.
+From PV Require Import proofs.FloatFacts proofs.WrapFloat.
+
+Theorem C15_F_wrap_range :
+  forall x : F, is_finite (Prim2B x) = true -> (Rabs (B2R (Prim2B x)) <= 2251799813685248)%R ->
+    let w := wrap1 NumF x in is_finite (Prim2B w) = true /\ (- / 2 <= B2R (Prim2B w) <= / 2 -
+    bpow radix2 (-53))%R.
+Proof. exact F_wrap_range. Qed.
+Print Assumptions C15_F_wrap_range.
+
+Theorem C15_F_wrap_in_cell :
+  forall x : F, is_finite (Prim2B x) = true -> (Rabs (B2R (Prim2B x)) <= 2251799813685248)%R ->
+    fleb (-0.5) (wrap1 NumF x) = true /\ fltb (wrap1 NumF x) 0.5 = true.
+Proof. exact F_wrap_in_cell. Qed.
+Print Assumptions C15_F_wrap_in_cell.
+
+Theorem C15_ffmod1_range :
+  forall x : F, is_finite (Prim2B x) = true -> is_finite (Prim2B (ffmod1 x)) = true /\ (-1 < B2R
+    (Prim2B (ffmod1 x)) < 1)%R /\ ((0 <= B2R (Prim2B x))%R -> (0 <= B2R (Prim2B (ffmod1 x)))%R).
+Proof. exact ffmod1_range. Qed.
+Print Assumptions C15_ffmod1_range.
+
